@@ -222,6 +222,36 @@ CLAIMS = {
        "a premise.",
   technique="contract-based deductive verification (2 functions) + bounded stand-in on the real OverlapWindowPlugin",
   design_ref="DESIGN.md section 6 (C09) and 10"),
+ "C16": dict(
+  category="proof",
+  text="Contract-based deductive proof over the real source of the two ends every copy / rewrite goes through: "
+       "StorageBackend._read_and_format_chunk builds a chunk only from rows whose count equals the recorded count (DataCorrupted "
+       "otherwise) and gives it exactly the recorded start / end / run id / subruns; Saver.save_from / Saver.save write every chunk they "
+       "receive exactly once under consecutive numbers with the chunk's own row count, range and annotations and finalise only after "
+       "every write was checked; Chunk.split keeps all rows in order. That copy_to_frontend, the stand-alone rechunker (compressors x "
+       "target sizes x serial / thread / process x replace x progress bar), rechunk on load and per-chunk building + "
+       "merge_per_chunk_storage load to exactly the original rows with consistent metadata and an intact source is a bounded stand-in "
+       "on the real code (the earlier defects F8 and F13 found here are fixed).",
+  note="Not proved: copy_to_frontend, merge_per_chunk_storage, file_rechunker.rechunker, _read_format_split_chunk / "
+       "Rechunker.get_splits, the Rechunker, dry_load_files and the codecs - bounded stand-in only.",
+  technique="contract-based deductive verification (obligations at the Chunk constructor call via hooks; Saver contracts) + bounded stand-in on the real code",
+  design_ref="DESIGN.md section 6 (C16) and 10"),
+ "C01": dict(
+  category="proof",
+  text="Contract-based deductive proof over the real source of the per-function building blocks the end-to-end statement rests on, "
+       "each for all inputs: split_array / Chunk.split keep every row, in order, wholly on one side of the split; Plugin.do_compute "
+       "hands the computation exactly the rows of time-aligned inputs and declares the result for exactly that interval; "
+       "Plugin._fix_output wraps a result into a chunk of the declared data type, range and dtype or refuses it; continuity_check lets "
+       "only gap-free, overlap-free chunk sequences through; ThreadedMailboxProcessor.__init__ wires lazy mode, drivers and "
+       "capacities as specified (the mailbox transport itself is C05). The composed statement - get_iter's rows equal the whole-run "
+       "computation and the chunks tile the run, independent of source chunking, processor, workers, lazy / eager, capacity, rechunk on "
+       "save and stored subset - is a bounded stand-in on the real Context for a graph with row-wise, filtering, same-kind merging, "
+       "multi-output, overlap-window and exhaust plugins.",
+  note="The composition is NOT proved: Plugin.iter's buffering, Chunk.concatenate / merge, PostOffice / SaverSpy (single-thread bus), "
+       "divide_outputs, loop and down-chunking plugin classes. 'All thread schedules' is covered for the mailbox layer by C05 only; the "
+       "stand-in runs under the OS scheduler.",
+  technique="contract-based deductive verification of the building blocks + bounded stand-in on the real Context for the composition",
+  design_ref="DESIGN.md section 6 (C01) and 10"),
 }
 
 NA_REASON = "check not built yet (see DESIGN.md section 6 for the plan)"
